@@ -169,7 +169,7 @@ type Config struct { // TODO use https://github.com/projectdiscovery/yamldoc-go 
 	ForceKeyAuthentication           bool `yaml:"forceKeyAuthentication" json:"forceKeyAuthentication"`                                         // Added in 1.19
 
 	Debug          bool                      `yaml:"debug,omitempty" json:"debug,omitempty"` // Enable debug mode
-	ShutdownReason *configutil.TextComponent `yaml:"shutdownReason,omitempty" json:"shutdownReason,omitempty"`
+	ShutdownReason *configutil.TextComponent `yaml:"shutdownReason" json:"shutdownReason"`
 
 	Lite liteconfig.Config `yaml:"lite,omitempty" json:"lite,omitempty"` // Lite mode settings
 	Via  Via               `yaml:"via,omitempty" json:"via,omitempty"`   // Via backend compatibility settings
